@@ -311,6 +311,11 @@ func (t *Dense) fix() {
 func (t *Dense) makeMask() {
 	var size int
 	size = t.shape.TotalSize()
+	if t.array.Header.Raw != nil {
+		// once the data exists the mask has one entry per data element: IsMasked compares with t.len(),
+		// and the data of a view with gaps is longer than its shape says
+		size = t.len()
+	}
 	if len(t.mask) >= size {
 		t.mask = t.mask[:size]
 	}
